@@ -41,6 +41,7 @@ def validate_task(datatype, with_threshold):
         dom = tc.smt()
         I = tc.interp()
         hints = {"datatype": datatype, "with_threshold": with_threshold}
+        tc.native = ("validate", hints)
         holder = {}
 
         def svd_checkpoint(I_, A, *a, **k):
